@@ -129,7 +129,7 @@ func runC14(c *Ctx) {
 
 	// (2) path-wise prefix tests
 	storagePkgs := []*packages.Package{pkSt, pkMem}
-	for _, rel := range []string{"private/pkg/storage/storageos", "private/pkg/storage/storageutil", "private/pkg/storage/storagearchive"} {
+	for _, rel := range []string{"private/pkg/storage/storageos", "private/pkg/storage/storageutil", "private/pkg/storage/storagearchive", "private/pkg/filepathext"} {
 		if q := p.Pkg(rel); q != nil {
 			storagePkgs = append(storagePkgs, q)
 		}
@@ -506,6 +506,7 @@ func runC14(c *Ctx) {
 	c14CloseOnce(c, stPkgs)
 	c11ArchiveLastWins(c)
 	c13ViewWrapsArgument(c)
+	c13PathPrefixByString(c)
 	c14SymlinkFullyResolved(c)
 	c13UntrustedNames(c)
 	ruleDelegateErr(c, "DELEGATE-ERR", stPkgs)
